@@ -73,6 +73,9 @@ ListenerAccepts(pol, cert) ==
       [] pol = "required" -> cert = "valid"
 ConnSettings == {"verify_ca", "insecure", "default_roots"}
 ServerCerts == {"valid", "foreign", "wrongname"}
+(* the upstream may be configured by DNS name or by address literal: the rule is the same (an address that the verifier    *)
+(* cannot match against the certificate is a name that does not match)                                                   *)
+ConnNames == {"dns", "ip"}
 ConnectorEstablishes(cs, cert) ==
     CASE cs = "insecure" -> TRUE
       [] cs = "verify_ca" -> cert = "valid"
